@@ -26,6 +26,11 @@ FUEL = 500
 SIG_CROSS = 'C10:cross-clock-order-follows-physical-time'
 SIG_DUP = 'C10:nrt-two-pending-wakeups-after-reschedule'
 SIG_NEG = 'C10:task-before-score-start-not-sendable-in-nrt'
+SIG_INF = 'C10:nrt-inf-delta-rescheduled'
+SIG_NAN = 'C10:rt-nan-delta-stalls-clock'
+# yielded values the clocks do not re-schedule on (inf = never; nan; not a number) / that are a zero delta
+HANG_KINDS = ['inf', 'none', 'true', 'false', 'str', 'list', 'tuple', 'nan']
+ZERO_KINDS = ['nzero', 'fzero', 'izero']
 NREQ = 21
 
 
@@ -37,6 +42,8 @@ def xact(a, p=None):
         return '(XSend %s %s)' % (K.olat(t[0]), clist(t[1], K.elem))
     if k == 'Y':
         return '(XYield %s)' % K.q(a[1])
+    if k == 'YV':          # yield of a value that is not a positive finite number
+        return 'XHang' if a[1] in HANG_KINDS else '(XYield %s)' % K.q('0')
     if k == 'S':
         return '(XSend %s %s)' % (K.olat(a[1]), clist(a[2], K.elem))
     if k == 'P':
@@ -227,6 +234,10 @@ def gen_xprog(rng, profile):
                 body.append(['R'])
             else:
                 body.append(['raise', rng.choice('VSKR')])
+        if rng.random() < 0.22:
+            # a yield of inf / of something that is not a number (never re-scheduled), or of a zero of another type
+            kind = rng.choice(['inf', 'inf', 'inf'] + HANG_KINDS + ZERO_KINDS + ZERO_KINDS)
+            body.insert(rng.randint(0, len(body)), ['YV', kind])
         if j + 1 < nb and nplay == 0 and rng.random() < (0.9 if j == 0 else 0.5):
             a = play_act(j, j + 1)
             if a is not None:
@@ -277,6 +288,20 @@ SETBEATS_PROG = {'tempos': ['4'], 'bodies': [[['P', 1, ['T', 0]], ['P', 2, ['T',
 NEG_PROG = {'tempos': ['1'], 'bodies': [[['P', 1, ['T', 0]], ['Y', '1/8'], ['sb', 0, '10'], ['Y', '1/8']],
                                        [['Y', '1/4'], ['S', None, [['m', 1]]], ['Y', '1/4']]],
             'nconds': 0, 'nflows': 0, 'mseed': 1, 'tail': '0', 'shared': []}
+# a routine that yields inf is never re-scheduled (in both modes); the root and a sibling on a tempo clock go on
+INF_PROG = {'tempos': [], 'bodies': [[['P', 1, 'S'], ['Y', '1/4'], ['S', '0', [['m', 9]]], ['Y', '1/4']],
+                                     [['Y', '1/8'], ['S', '0', [['m', 1]]], ['YV', 'inf'], ['S', '0', [['m', 2]]], ['Y', '1/8']]],
+            'nconds': 0, 'nflows': 0, 'mseed': 1, 'tail': '0', 'shared': []}
+YV_PROG = {'tempos': ['2'], 'bodies': [[['P', 1, 'S'], ['P', 2, ['T', 0]], ['P', 3, 'S'], ['P', 4, ['T', 0]], ['P', 5, 'S'], ['P', 6, ['T', 0]], ['P', 7, 'S'], ['Y', '1/4'],
+                                        ['S', '0', [['m', 9]]], ['YV', 'fzero'], ['S', '0', [['m', 10]]], ['Y', '1/4']]] +
+                                      [[['Y', '1/%d' % (8 * (1 + i % 2))], ['S', '0', [['m', i]]], ['YV', v], ['S', '0', [['m', 20 + i]]], ['Y', '1/8'], ['S', None, [['m', 40 + i]]]]
+                                       for i, v in enumerate(['inf', 'none', 'true', 'false', 'str', 'nzero', 'izero'])],
+           'nconds': 0, 'nflows': 0, 'mseed': 1, 'tail': '0', 'shared': [], 'order_clocks': []}
+# a routine yields nan (never re-scheduled) while another routine of the same clock goes on yielding
+NAN_PROG = {'tempos': ['2'], 'bodies': [[['P', 1, 'S'], ['P', 2, 'S'], ['Y', '1/2']],
+                                       [['Y', '1/8'], ['YV', 'nan'], ['S', '0', [['m', 2]]]],
+                                       [['Y', '1/4'], ['S', '0', [['m', 4]]], ['Y', '1/4'], ['S', '0', [['m', 5]]], ['Y', '1/4'], ['S', '0', [['m', 6]]]]],
+            'nconds': 0, 'nflows': 0, 'mseed': 1, 'tail': '0', 'shared': []}
 FIXED = [
     DUP_PROG,
     # the example of the documentation guide, inheritance and re-seeding, pause/resume, flow variable across clocks
@@ -290,6 +315,9 @@ FIXED = [
     STORM_PROG,
     SETBEATS_PROG,
     NEG_PROG,
+    INF_PROG,
+    YV_PROG,
+    NAN_PROG,
 ]
 
 
@@ -698,7 +726,7 @@ def correspond(ctx):
     if os.path.exists(corpus):
         nrt_cases += json.load(open(corpus))
     nrt_cases += [gen_xprog(rng, 'nrt') for _ in range(ctx.n(600, 3000))]
-    rt_cases = [SHARED_PROG, SEEDS_PROG, STORM_PROG, SETBEATS_PROG] + [gen_xprog(rng, 'single' if i % 2 == 0 else 'groups') for i in range(ctx.n(150, 900))]
+    rt_cases = [SHARED_PROG, SEEDS_PROG, STORM_PROG, SETBEATS_PROG, INF_PROG, YV_PROG, NAN_PROG] + [gen_xprog(rng, 'single' if i % 2 == 0 else 'groups') for i in range(ctx.n(150, 900))]
     cases = nrt_cases + rt_cases
     first_rt = len(nrt_cases)
 
@@ -709,7 +737,13 @@ def correspond(ctx):
     items, idx = [], []
     for i, (p, a, b) in enumerate(zip(cases, A, B)):
         if 'fatal' in a or 'fatal' in b or not a.get('raw_ok'):
-            c.failures.append(Failure('correspondence', 'NRT case %d could not be run: %s' % (i, (a.get('fatal') or b.get('fatal') or 'raw score malformed')[:600]), found_input=True,
+            why = a.get('fatal') or b.get('fatal') or 'raw score malformed'
+            if any(act[:2] == ['YV', 'inf'] for b_ in p['bodies'] for act in b_) and ('OverflowError' in why or 'infinity' in why):
+                c.failures.append(Failure('correspondence', 'NRT: a routine that yields inf is put back in the queue at time inf (resumed once more after everything else, elapsed time '
+                                          'inf) and main.process() fails with OverflowError; in real time (and for sched(inf, f)) inf means never. Program: %s -- %s'
+                                          % (json.dumps(p), why.strip().splitlines()[0][:200]), signature=SIG_INF, theorem='rt_nrt_agree', found_input=True, replay={'program': p}))
+                continue
+            c.failures.append(Failure('correspondence', 'NRT case %d could not be run: %s' % (i, why[:600]), found_input=True,
                                       replay={'program': p}))
             continue
         for key in ('raw_sha1', 'list_repr_sha1', 'events', 'vals', 'elapsed'):
@@ -875,6 +909,28 @@ def correspond(ctx):
                                           replay={'program': NEG_PROG, 'observed': W, 'nrt': a}))
     except fw.ImplError as e:
         c.notes.append('before-start experiment not run: %s' % str(e)[:200])
+
+    # (c3) a yield of nan: never re-scheduled in either mode, and the other routines of that clock go on (before /repo 04ba3de
+    # the nan entry blocked the real-time clock's queue for good)
+    try:
+        an = A[FIXED.index(NAN_PROG)]
+        res = lambda o: sorted((e[1], e[2]) for e in o.get('events', []) if e[0] == 'resume')
+        for attempt in range(2):            # a run not completed in time is repeated once (machine load)
+            W = run_rt(ctx, [NAN_PROG], k=8 + attempt)[0]
+            if 'fatal' in W or (W.get('completed') and res(an) == res(W)):
+                break
+        if 'fatal' in an or 'fatal' in W:
+            c.notes.append('nan experiment not run: %s' % str(an.get('fatal') or W.get('fatal'))[:200])
+        else:
+            same = bool(W.get('completed')) and res(an) == res(W)
+            c.count('nan experiment: RT %s NRT' % ('agrees with' if same else 'differs from'))
+            if not same:
+                c.failures.append(Failure('correspondence', 'a routine that yields nan: in non-real-time the task is not re-scheduled and the other routines go on (resumptions %s); '
+                                          'in real time the clock performs no further task: resumptions %s, completed=%s. Program: %s'
+                                          % (res(an), res(W), W.get('completed'), json.dumps(NAN_PROG)), signature=SIG_NAN, theorem='rt_nrt_agree', found_input=True,
+                                          replay={'program': NAN_PROG, 'nrt_events': an.get('events'), 'rt_events': W.get('events'), 'rt_completed': W.get('completed')}))
+    except fw.ImplError as e:
+        c.notes.append('nan experiment not run: %s' % str(e)[:200])
 
     # (d) the quantisation API of TempoClock (logged values; no model)
     quant_part(ctx, c)
